@@ -10,3 +10,5 @@ import SpgProofs.Properties.C12
 #print axioms Spg.C12.tokenize_lengths_full
 #print axioms Spg.C12.tokenize_errors
 #print axioms Spg.C12.tokenize_errors_full
+#print axioms Spg.C12.explode_partition
+#print axioms Spg.C12.tokenize_prefix_bytes
